@@ -137,7 +137,7 @@ void run_op(World& w, Local& l, const OpSpec& op) {
   }
   if (n == "tk") {
     int v;
-    while ((v = w.mbox[op.h].load(std::memory_order_acquire)) == 0) sched_yield();
+    while ((v = w.mbox[op.h].load(std::memory_order_acquire)) == 0) usleep(50); // virtual time: not runnable meanwhile
     l.obj = v - 1;
     return;
   }
@@ -198,7 +198,7 @@ void scenario_epoch(const vrun::Params& p) {
         for (auto& op : prog[t]) run_op(w, l, op);
         // no thread exits (and gives its thread id back) before every thread is through its program
         w.done.fetch_add(1, std::memory_order_acq_rel);
-        while (w.done.load(std::memory_order_acquire) < nthreads) sched_yield();
+        while (w.done.load(std::memory_order_acquire) < nthreads) usleep(100); // virtual time: not runnable meanwhile
       });
     }
     for (auto& th : ths) th.join();
